@@ -316,3 +316,396 @@ def cli7(ctx):
                      % (f, f, ", ".join(u.rsplit("::", 1)[-1] for u in users) or "the rsca reader"))
     r.analysed = {"fields": fields, "users": users}
     return r
+
+
+# ---------------------------------------------------------------- FLW-4g: the interpreter does not invent modifiers
+
+SUPRA_T = "asca::parser::SupraSegs"
+INTERP = ("asca::subrule::", "asca::syll::")
+CTOR_PREFIX = ("asca::parser::ModKind::", "asca::parser::BinMod::")
+
+
+def _absent(e):
+    e = hirq.strip(e)
+    if not isinstance(e, dict):
+        return False
+    if e.get("e") == "path" and (e.get("path") or "").endswith("Option::None"):
+        return True
+    if e.get("e") == "array":
+        return all(_absent(x) for x in e.get("items", []))
+    return False
+
+
+def _copied(e, root_binds):
+    """the expression is a binding of a pattern (the parsed rule's own data), possibly dereferenced / cloned / a field of it"""
+    e = hirq.strip(e)
+    while isinstance(e, dict):
+        if e.get("e") == "unary" and e.get("op") == "Deref":
+            e = hirq.strip(e["a"])
+        elif e.get("e") == "mcall" and e["name"] in ("clone", "to_owned") and not e.get("args"):
+            e = hirq.strip(e["recv"])
+        elif e.get("e") in ("field", "index"):
+            e = hirq.strip(e["a"])
+        else:
+            break
+    return isinstance(e, dict) and e.get("e") == "path" and "local" in e
+
+
+def flw4g(ctx):
+    """Segment-only and prosody-only rules stay on their tier because the interpreter only ever *applies the modifiers the
+    rule contains*: in asca::subrule and asca::syll a SupraSegs is assembled from the parsed element's own stress / tone
+    (length absent) and no ModKind / BinMod value is constructed. A fabricated `Some(ModKind::Binary(..))` is a
+    suprasegmental change that the rule text did not ask for."""
+    r = RuleResult("FLW-4g", "the rule interpreter never fabricates a modifier: every SupraSegs built in asca::subrule / asca::syll copies stress and tone from the parsed element and leaves the rest absent; no ModKind/BinMod value is constructed there; no field of a SupraSegs is assigned", floor=6)
+    lib = ctx.lib
+    n_build = 0
+    for b in lib.bodies:
+        if b.in_test_mod() or not b.hir or b.kind == "closure" or b.exp or not b.path.startswith(INTERP):
+            continue
+        root = b.hir["body"]
+        par = hirq.parent_map(root)
+        k_c = 0
+        for x in hirq.walk(root):
+            # (1) SupraSegs literals and SupraSegs::from / ::new
+            fields = None
+            if x["e"] == "struct" and (x.get("path") or "") == SUPRA_T:
+                fields = [(nm, ex) for nm, ex in x.get("fields", [])]
+            elif x["e"] == "call" and (hirq.strip(x["f"]).get("path") or "") == SUPRA_T + "::from":
+                fields = list(zip(("stress", "length", "tone"), x["args"]))
+            if fields is not None:
+                n_build += 1
+                bad = [nm for nm, ex in fields if not (_absent(ex) or _copied(ex, None))]
+                loc = fn_loc(b, x.get("ln"))
+                r.inst("%s: SupraSegs built from %s" % (b.path, ", ".join("%s=%s" % (nm, "absent" if _absent(ex) else ("copied" if _copied(ex, None) else "COMPUTED")) for nm, ex in fields)), loc, "ok" if not bad else "report")
+                if bad:
+                    r.report("FLW-4g|%s|build|%s" % (b.path, "+".join(bad)), loc, b.path,
+                             "a SupraSegs handed to the suprasegmental setters has a computed %s: the interpreter applies a stress / length / tone modifier that the rule text does not contain" % "/".join(bad))
+            # (2) constructor expressions of ModKind / BinMod
+            if x["e"] == "path" and (x.get("path") or "").startswith(CTOR_PREFIX) and "ctor" in (x.get("rk") or ""):
+                p = par.get(id(x))
+                while p is not None and p.get("e") in ("call",) and hirq.strip(p["f"]) is x:
+                    p = par.get(id(p))
+                if p is not None and p.get("e") == "binary" and p.get("op") in ("Eq", "Ne"):
+                    continue            # compared, not built
+                loc = fn_loc(b, x.get("ln"))
+                r.inst("%s: constructs %s" % (b.path, x["path"].split("::", 2)[-1]), loc, "report")
+                r.report("FLW-4g|%s|ctor|%s#%d" % (b.path, x["path"].rsplit("::", 2)[-2] + "::" + x["path"].rsplit("::", 1)[-1], k_c), loc, b.path,
+                         "the interpreter constructs the modifier value %s: modifiers come from the parsed rule only -- a fabricated one changes a tier (length / stress / tone) the rule did not name"
+                         % x["path"].split("::", 2)[-1])
+                k_c += 1
+            # (3) assignments into a SupraSegs
+            if x["e"] in ("assign", "assignop"):
+                l = hirq.strip(x["lhs"])
+                hit = None
+                y = l
+                while isinstance(y, dict) and y.get("e") in ("field", "index", "unary"):
+                    if y.get("e") == "field" and (y.get("of_ty") or "").lstrip("&").replace("mut ", "") == SUPRA_T:
+                        hit = y["name"]
+                    y = hirq.strip(y["a"])
+                if hit:
+                    loc = fn_loc(b, x.get("ln"))
+                    r.inst("%s: assigns SupraSegs.%s" % (b.path, hit), loc, "report")
+                    r.report("FLW-4g|%s|assign|%s" % (b.path, hit), loc, b.path,
+                             "the interpreter edits the `%s` modifiers of a SupraSegs before applying it: the applied modifiers are no longer the rule's" % hit)
+    if n_build < 4:
+        raise AnchorMissing("FLW-4g: %d SupraSegs constructions in the interpreter (expected >= 4)" % n_build)
+    r.analysed = {"suprasegs_built": n_build}
+    return r
+
+
+# ---------------------------------------------------------------- SHR-4: the deromaniser applies modifiers like a rule does
+
+def _binary_arm(body, array_field):
+    """the `ModKind::Binary(bm) => ..` arm of the match inside the loop over `<mods>.<array_field>`"""
+    for n in hirq.walk(body.hir["body"]):
+        if n["e"] == "match" and n.get("src") == "ForLoopDesugar" or (n["e"] == "loop" and n.get("src") == "ForLoop"):
+            pass
+    loops = [n for n in hirq.walk(body.hir["body"]) if n.get("src") == "ForLoopDesugar" or (n["e"] == "match" and "ForLoop" in str(n.get("src")))]
+    for lp in loops:
+        txt = json.dumps(lp.get("scrut") or lp)[:3000]
+        # the iterated expression mentions the array (`mods.nodes` / `nodes`)
+        if not any((x["e"] == "field" and x.get("name") == array_field) or (x["e"] == "path" and x.get("local") == array_field) for x in hirq.walk(lp.get("scrut") or {})):
+            continue
+        for m in hirq.walk(lp):
+            if m["e"] == "match" and (m.get("sty") or "").lstrip("&").endswith("asca::parser::ModKind"):
+                for a in m["arms"]:
+                    if any((p.get("path") or "") == "asca::parser::ModKind::Binary" for p in hirq.flat_pats(a["pat"])):
+                        return a, m
+    return None, None
+
+
+def shr4(ctx):
+    """A deromaniser output `x > f:[+labial, +round]` must build the segment that the rule `f > [+labial, +round]` builds:
+    the Binary-modifier arms of Word::alias_apply_mods (nodes loop and feats loop) are the same code as those of
+    Segment::apply_seg_mods, up to the receiver and the error type."""
+    from engine_pol import Canon
+    r = RuleResult("SHR-4", "Word::alias_apply_mods applies binary node / feature modifiers with the same code as Segment::apply_seg_mods (same guards, same setters, same order; only receiver and error type differ)", floor=2)
+    lib = ctx.lib
+    A = ctx.fn(lib, "asca::word::Word::alias_apply_mods")
+    S = ctx.fn(lib, "asca::seg::Segment::apply_seg_mods")
+    for arr in ("nodes", "feats"):
+        aa, am = _binary_arm(A, arr)
+        sa, sm = _binary_arm(S, arr)
+        if aa is None or sa is None:
+            raise AnchorMissing("SHR-4: the ModKind::Binary arm of the loop over `%s` was not found in %s" % (arr, "alias_apply_mods" if aa is None else "apply_seg_mods"))
+        ca, cs = Canon(), Canon()
+        ja = json.dumps({"pat": ca.pat(aa["pat"]), "body": ca.expr(aa["body"])}, sort_keys=True, default=str)
+        js = json.dumps({"pat": cs.pat(sa["pat"]), "body": cs.expr(sa["body"])}, sort_keys=True, default=str)
+        norm = lambda t: re.sub(r"asca::error::runtime::(Alias|Rule)RuntimeError::", "ERR::", t)
+        same = norm(ja) == norm(js) and ca.pol == cs.pol
+        where = ""
+        if not same:
+            # name the first differing constructor / call for the message
+            ta, ts = norm(ja), norm(js)
+            i = next((k for k, (x, y) in enumerate(zip(ta, ts)) if x != y), min(len(ta), len(ts)))
+            where = " (first difference near `%s` vs `%s`)" % (ta[max(0, i - 40):i + 40].replace('"', ""), ts[max(0, i - 40):i + 40].replace('"', ""))
+        r.inst("binary `%s` modifiers: alias_apply_mods and apply_seg_mods run the same arm" % arr, fn_loc(A, aa["pat"].get("ln") or am.get("ln")), "ok" if same else "report")
+        if not same:
+            r.report("SHR-4|%s" % arr, fn_loc(A, am.get("ln")), A.path,
+                     "the deromaniser applies binary %s modifiers differently from the rule interpreter%s: text `s` aliased to `X:[mods]` no longer behaves as if the segment `X` with those modifiers had been produced by a rule" % (arr, where))
+    return r
+
+
+# ---------------------------------------------------------------- SYN-3: Greek and Latin alpha letters are tested together
+
+def _is_greek_atom(e):
+    if e.get("e") != "match":
+        return False
+    for a in e.get("arms", []):
+        for p in hirq.walk_pats(a["pat"]):
+            if p.get("p") == "range" and (p.get("lo") or {}).get("lit") == "α" and (p.get("hi") or {}).get("lit") == "ω":
+                return True
+    return False
+
+
+def _is_latin_atom(e):
+    return e.get("e") == "mcall" and e.get("name") == "is_ascii_uppercase"
+
+
+def _subject(e):
+    """printable subject of a class test (`self.curr_char()`, `c`)"""
+    x = e["scrut"] if e.get("e") == "match" else e.get("recv")
+    x = hirq.strip(x)
+    out = []
+    while isinstance(x, dict):
+        if x.get("e") == "mcall":
+            out.append(x["name"] + "()")
+            x = hirq.strip(x["recv"])
+        elif x.get("e") == "path":
+            out.append(x.get("local") or x.get("path") or "?")
+            break
+        elif x.get("e") in ("unary", "field"):
+            out.append(x.get("name") or "*")
+            x = hirq.strip(x["a"])
+        else:
+            out.append(x.get("e"))
+            break
+    return ".".join(reversed(out))
+
+
+def _groups(e, neg, out, top=True):
+    """flatten a boolean expression into same-operator groups of (atom, negated) under De Morgan normalisation"""
+    e = hirq.strip(e)
+    if isinstance(e, dict) and e.get("e") == "unary" and e.get("op") == "Not":
+        return _groups(e["a"], not neg, out, top)
+    if isinstance(e, dict) and e.get("e") == "binary" and e.get("op") in ("And", "Or"):
+        op = e["op"] if not neg else ("Or" if e["op"] == "And" else "And")
+        members = []
+
+        def collect(x, n):
+            x = hirq.strip(x)
+            if isinstance(x, dict) and x.get("e") == "unary" and x.get("op") == "Not":
+                return collect(x["a"], not n)
+            if isinstance(x, dict) and x.get("e") == "binary" and x.get("op") in ("And", "Or"):
+                o2 = x["op"] if not n else ("Or" if x["op"] == "And" else "And")
+                if o2 == op:
+                    collect(x["a"], n)
+                    collect(x["b"], n)
+                    return
+                sub = []
+                _groups(x, n, out, False)
+                members.append((x, n, "group"))
+                return
+            members.append((x, n, "atom"))
+        collect(e["a"], neg)
+        collect(e["b"], neg)
+        out.append((op, members))
+        return
+    if top:
+        out.append(("single", [(e, neg, "atom")]))
+
+
+def syn3(ctx):
+    """The manual allows Greek (α..ω) and Latin (A..Z) letters as alpha names interchangeably. Wherever the rule lexer asks
+    'is this character a Greek alpha letter?' it must ask 'or a Latin capital?' in the same breath: as direct members of
+    the same and/or chain with the same sign. An extra condition glued to only one of the two (`greek || latin && ..`)
+    makes `[-Aplace]` and `[-αplace]` lex differently."""
+    r = RuleResult("SYN-3", "in the rule lexer every test for a Greek alpha letter ('α'..='ω') has the Latin-capital test on the same subject as a direct sibling in the same and/or chain, with the same sign (Greek and Latin alpha names are interchangeable)", floor=2)
+    lib = ctx.lib
+    n = 0
+    for b in lib.bodies:
+        if b.in_test_mod() or not b.hir or b.kind == "closure" or not b.path.startswith("asca::lexer::"):
+            continue
+        root = b.hir["body"]
+        greeks = [x for x in hirq.walk(root) if _is_greek_atom(x)]
+        if not greeks:
+            continue
+        par = hirq.parent_map(root)
+        for k, g in enumerate(greeks):
+            n += 1
+            # the maximal boolean expression around the atom
+            top = g
+            p = par.get(id(top))
+            while p is not None and ((p.get("e") == "binary" and p.get("op") in ("And", "Or")) or (p.get("e") == "unary" and p.get("op") == "Not")):
+                top = p
+                p = par.get(id(p))
+            groups = []
+            _groups(top, False, groups)
+            ok = False
+            why = "no Latin-capital test next to it"
+            for op, members in groups:
+                gs = [(x, ng) for x, ng, kind in members if kind == "atom" and x is g]
+                if not gs:
+                    continue
+                ng = gs[0][1]
+                lat = [(x, nl) for x, nl, kind in members if kind == "atom" and _is_latin_atom(x) and _subject(x) == _subject(g)]
+                if any(nl == ng for _x, nl in lat):
+                    ok = True
+                elif lat:
+                    why = "the Latin-capital test has the opposite sign"
+                else:
+                    nested = [x for x, _n, kind in members if kind == "group" and any(_is_latin_atom(y) for y in hirq.walk(x))]
+                    if nested:
+                        why = "the Latin-capital test carries an extra condition that the Greek test does not (`greek %s (latin %s ..)`)" % ("||" if op == "Or" else "&&", "&&" if op == "Or" else "||")
+            loc = fn_loc(b, g.get("ln"))
+            r.inst("%s: Greek-alpha test #%d on `%s` has the Latin-capital test as a same-sign sibling" % (b.path, k, _subject(g)), loc, "ok" if ok else "report")
+            if not ok:
+                r.report("SYN-3|%s|greek#%d" % (b.path, k), loc, b.path,
+                         "the test for a Greek alpha letter on `%s` is not paired with the Latin-capital test: %s -- `[-Aplace]` and `[-αplace]` are lexed differently although the manual makes Latin and Greek alpha names interchangeable" % (_subject(g), why))
+    if n < 2:
+        raise AnchorMissing("SYN-3: %d Greek-alpha class tests in the rule lexer (expected >= 2)" % n)
+    r.analysed = {"greek_class_tests": n}
+    return r
+
+
+# ---------------------------------------------------------------- SUP-7: a tested long segment is stepped over whole
+
+def sup7(ctx):
+    """A long segment is stored as a run of identical copies; `seg_length_at` only counts forward. The two element matchers
+    that test one segment against an IPA / matrix element step the cursor over the whole run afterwards -- on success *and*
+    on failure. If the failure path forgets it, the scan continues inside the run, where the tail looks like a shorter
+    segment: `a:[-long]` then matches the second half of /a:/."""
+    r = RuleResult("SUP-7", "input_match_ipa / input_match_matrix: every non-error return passes the run-skip loop (seg_length_at .. while > 1 { pos.increment }) -- a failed test of a long segment does not leave the cursor inside its run", floor=2)
+    lib = ctx.lib
+    n = 0
+    for name in ("input_match_ipa", "input_match_matrix"):
+        b = ctx.fn(lib, "asca::subrule::SubRule::" + name)
+        b2 = inline_mir_helpers(lib, b)
+        cfg = b2.cfg
+        loops = cfg.loops
+        incs = {i for i, t in b2.calls() if (callee_path(t) or "").endswith("SegPos::increment")}
+        reads = [i for i, t in b2.calls() if (callee_path(t) or "").endswith("Word::seg_length_at")]
+        rets = {i for i, bl in enumerate(b2.blocks) if bl["t"]["k"] == "return" and not bl.get("cleanup")}
+        errs = {i for i, t in b2.calls() if "from_residual" in (callee_path(t) or "")}
+        skip_loops = [(h, body) for h, body in loops if incs & set(body)]
+        S = set()
+        for s in reads:
+            reach = cfg.reachable_from(s, avoid=(set(reads) - {s}) | rets)
+            if any(h in reach for h, _ in skip_loops):
+                S.add(s)
+        if not S:
+            raise AnchorMissing("SUP-7: %s has no run-skip loop (seg_length_at followed by a loop over SegPos::increment)" % name)
+        n += 1
+        reach = cfg.reachable_from(0, avoid=S | errs)
+        bad = sorted(x for x in reach if x in rets)
+        # name the statement that returns without the skip: the last source line on such a path before the return
+        where = None
+        if bad:
+            cand = []
+            for x in reach:
+                bl = b2.blocks[x]
+                for st in bl["s"]:
+                    if st["k"] == "assign" and st["lhs"]["l"] == 0 and st.get("loc", "").startswith(b.file) and not st.get("exp"):
+                        cand.append(st["loc"])
+            where = ":".join(sorted(cand, key=lambda l: int(l.split(":")[1]))[0].split(":")[:2]) if cand else None
+        r.inst("%s: all non-error returns pass one of the %d run-skip loops" % (name, len(S)), fn_loc(b), "ok" if not bad else "report")
+        if bad:
+            r.report("SUP-7|%s|return-without-skip" % name, where or fn_loc(b), b.path,
+                     "%s can return (a verdict, not an error) without stepping the cursor over the rest of a long segment's run: the next attempt starts on the 2nd copy, where seg_length_at (which only looks forward) reports a shorter segment -- e.g. `a:[-long]` matches the tail of /a:/" % name)
+    r.analysed = {"functions": n}
+    return r
+
+
+def inline_mir_helpers(lib, b):
+    """look through private helpers that take the cursor (`&mut SegPos`): the skip loop may have been extracted"""
+    import facts as F
+    try:
+        return F.inline_mir(lib, b, lambda cb: cb.path.startswith("asca::subrule::SubRule::") and any("SegPos" in (ty or "") and "&mut" in (ty or "") for ty in (cb.param_tys or []))
+                            and not cb.path.endswith(("match_ipa_with_modifiers", "match_modifiers")))
+    except (KeyError, IndexError):
+        return b
+
+
+# ---------------------------------------------------------------- RT-4: the reader's normalisation leaves the renderer's alphabet alone
+
+def normalise_table(ctx):
+    """char -> replacement string, from the arms of the `match ch` in asca::normalise (the default arm copies the char)"""
+    b = ctx.fn(ctx.lib, NORMALISE)
+    ms = [m for m in hirq.matches(b) if (m.get("sty") or "") == "char"]
+    if len(ms) != 1:
+        raise AnchorMissing("normalise: the `match ch` over the input characters was not found (%d candidates)" % len(ms))
+    table = {}
+    for arm in ms[0]["arms"]:
+        pats = hirq.flat_pats(arm["pat"])
+        if any(p.get("p") in ("wild", "bind") for p in pats):
+            continue
+        outs = [n for n in hirq.walk(arm["body"]) if n["e"] == "mcall" and n["name"] in ("push", "push_str")]
+        if len(outs) != 1 or hirq.strip(outs[0]["args"][0]).get("e") != "lit":
+            raise AnchorMissing("normalise: arm at line %s is not a single push of a literal" % arm.get("ln"))
+        rep = hirq.strip(outs[0]["args"][0])["lit"]
+        for p in pats:
+            if p.get("p") == "lit" and isinstance(p.get("lit"), str):
+                table[p["lit"]] = rep
+            elif p.get("p") == "range":
+                lo, hi = (p.get("lo") or {}).get("lit"), (p.get("hi") or {}).get("lit")
+                if not (isinstance(lo, str) and isinstance(hi, str)):
+                    raise AnchorMissing("normalise: range pattern at line %s" % arm.get("ln"))
+                for c in range(ord(lo), ord(hi) + 1):
+                    table[chr(c)] = rep
+            else:
+                raise AnchorMissing("normalise: pattern kind %s at line %s" % (p.get("p"), arm.get("ln")))
+    return b, table
+
+
+def rt4(ctx):
+    """run() normalises every word it reads -- also the words an earlier stage printed. Whatever the renderer can print
+    (a base phone of cardinals.json, a diacritic of diacritics.json) must therefore come through normalise() unchanged,
+    or at least as another spelling of the very same segment; otherwise ASCA cannot read its own output, and a staged
+    pipeline differs from the single run."""
+    r = RuleResult("RT-4", "normalise() is the identity on the renderer's alphabet: every base-phone spelling of cardinals.json and every diacritic of diacritics.json is unchanged by it (or mapped to another table key of the same segment)", floor=380)
+    b, table = normalise_table(ctx)
+    cj = json.loads(ctx.read("src/cardinals.json"))
+    dj = json.loads(ctx.read("src/diacritics.json"))
+    norm = lambda s: "".join(table.get(ch, ch) for ch in s)
+    n_bad = 0
+    for k, v in cj.items():
+        k2 = norm(k)
+        ok = k2 == k or (k2 in cj and cj[k2] == v)
+        r.inst("cardinal %r survives normalise()" % k, "src/cardinals.json", "ok" if ok else "report")
+        if not ok:
+            n_bad += 1
+            hit = [ch for ch in k if ch in table]
+            r.report("RT-4|cardinal|%s" % "+".join("U+%04X" % ord(c) for c in k), fn_loc(b), b.path,
+                     "the renderer spells a base phone %r (%s), but normalise() rewrites %s to %r: the text ASCA prints is read back as %r, which is not that phone's spelling -- the word no longer round-trips and a second stage sees a different (or unreadable) word"
+                     % (k, " ".join("U+%04X" % ord(c) for c in k), ", ".join("U+%04X" % ord(c) for c in hit), "".join(table[c] for c in hit), k2))
+    for d in dj:
+        c = d.get("diacrit")
+        ok = isinstance(c, str) and norm(c) == c
+        r.inst("diacritic %s (%s) survives normalise()" % (d.get("name"), "U+%04X" % ord(c) if isinstance(c, str) and len(c) == 1 else c), "src/diacritics.json", "ok" if ok else "report")
+        if not ok:
+            r.report("RT-4|diacritic|%s" % d.get("name"), fn_loc(b), b.path,
+                     "the renderer prints the diacritic %r (%s) and normalise() rewrites it to %r: printed words are read back with another diacritic" % (c, d.get("name"), norm(c) if isinstance(c, str) else c))
+    r.analysed = {"normalise_arms": len(table), "cardinals": len(cj), "diacritics": len(dj)}
+    if len(table) < 8:
+        raise AnchorMissing("RT-4: normalise() has %d rewriting arms (expected >= 8)" % len(table))
+    return r
